@@ -13,25 +13,41 @@ type InputStream interface {
 	ReadAll() ([]rune, error)
 }
 
-// readRune - read bytes and yield runes
-func readRune(r io.Reader, remains []byte, b int) ([]rune, []byte, error) {
+// readRune - read (at most b) bytes and yield runes.
+// The bytes are decoded as strict UTF-8 after the `remains` carried from the previous read:
+//   - an incomplete encoding at the end of the buffer is carried to the next read
+//     (returned as the new `remains`), unless the stream has ended;
+//   - any byte sequence that is not valid UTF-8 is an error.
+//
+// The third result tells if the reader has reached its end.
+func readRune(r io.Reader, remains []byte, b int) ([]rune, []byte, bool, error) {
 	p := make([]byte, b)
 	rs := make([]rune, 0)
 
 	t, err := r.Read(p)
 	if err != nil && err != io.EOF {
-		return rs, []byte{}, zerr.ReadFileError(err, " <buffer> ")
+		return rs, []byte{}, false, zerr.ReadFileError(err, " <buffer> ")
 	}
+	eof := err == io.EOF
 
 	buf := append(remains, p[:t]...)
 	for len(buf) > 0 {
+		if !utf8.FullRune(buf) {
+			if eof {
+				// the stream ends in the middle of a character
+				return rs, []byte{}, eof, zerr.InvalidEncoding(" <buffer> ")
+			}
+			// wait for the rest of the character
+			break
+		}
 		ru, size := utf8.DecodeRune(buf)
-		if ru == utf8.RuneError {
-			return rs, buf, nil
+		// NOTE: a legitimate U+FFFD (EF BF BD) has size = 3
+		if ru == utf8.RuneError && size == 1 {
+			return rs, []byte{}, eof, zerr.InvalidEncoding(" <buffer> ")
 		}
 
 		rs = append(rs, ru)
 		buf = buf[size:]
 	}
-	return rs, buf, nil
+	return rs, buf, eof, nil
 }
